@@ -266,6 +266,8 @@ type DriveCfg struct {
 	AfterEnd int // extra polls after the end
 	// ContinueAfterFault: go on after a statement that failed with a definite error (the model skips it)
 	ContinueAfterFault bool
+	// Reregister: names of commands whose handler the host may register again between two steps
+	Reregister []string
 }
 
 func epsFor(secs float64) int64 {
@@ -362,6 +364,10 @@ func driveTape(tp *Tape, m *Model, cfg *DriveCfg, st *Stats) (ops []Op, choices 
 		}
 		if cfg.WritePct > 0 && tp.Chance(cfg.WritePct, "hostwrite") {
 			ops = append(ops, hostWriteOp(tp, m, cfg, st))
+		}
+		if len(cfg.Reregister) > 0 && tp.Chance(6, "reregister") {
+			// the host replaces a handler by a new closure of the same shape: executions from now on reach the new one
+			ops = append(ops, Op{K: "reregister", Var: cfg.Reregister[tp.Int(0, len(cfg.Reregister)-1, "reregname")]})
 		}
 		switch m.HostState() {
 		case "PENDING":
